@@ -433,6 +433,11 @@ def oracle_c04(res, EL=None):
                             f"({t - epoch_start} ticks after the first) was handed to the application again")
                 if t == epoch_start + cfg["emptyAckDelay"]:
                     continue               # coincides with the empty-ACK timer: order undefined
+                if any(tt + cfg["emptyAckDelay"] == t and k2 == "R" and int(f2[0]) == remote and 1 <= int(f2[3]) < 32
+                       and f2[2] == "CON" for (tt, k2, f2) in ins) or any(tt == t and k2 in ("P", "S") for (tt, k2, f2) in ins):
+                    # the empty-ACK timer of ANOTHER request of this endpoint fires in this very tick, or the application
+                    # sends something in it: what goes out in this tick cannot be attributed to the duplicate alone
+                    continue
                 prior = [s for s in sn if epoch_start <= s["tick"] < t and s["remote"] == remote
                          and s["mid"] == mid and s["mtype"] in ("ACK", "RST")]
                 if f[2] == "CON":
